@@ -369,6 +369,33 @@ def run_case(ctx, case):
                     ctx.sample({'stream': kinds, 'decodable': dec, 'structurally_incomplete': incomplete,
                                 'responses_first_chunking': [str(x)[:80] for x in results[list(results)[0]]],
                                 'frame0_hex': frames[0].hex()[:160]})
+            # a maximum response size belongs to the request that carries it, not to the connection
+            for _ in range(6):
+                version = rng.choice(rig.VERSIONS)
+                small = rng.choice((1, 50, 120, 160, 200, 400))
+                try:
+                    limited = rig.encode_request(rig.build_request(version, [rng.choice((op_locate(), op_query()))], max_size=small), version)
+                    plain_op = rng.choice((op_locate(), op_get(objs[0].uid) if objs else op_query(), op_query()))
+                    plain = rig.encode_request(rig.build_request(version, [plain_op]), version)
+                    garbage = reframe(bytes(rng.getrandbits(8) for _ in range(24)))
+                except Exception:
+                    continue
+                follow = rng.choice(('plain', 'garbage'))
+                stream = [limited, plain if follow == 'plain' else garbage]
+                s2, e2 = run_stream(srv.engine, stream, cert, rng, 'random')
+                sref, eref = run_stream(srv.engine, [stream[1]], cert, rng, 'exact')
+                ctx.ev()
+                ctx.count('sticky_limit_checks')
+                ctx.cell('sticky-limit', follow, small)
+                if e2 is not None or len(s2) != 2:
+                    from kv.monitors.logwatch import innermost_kmip_frame
+                    ctx.violation('sticky-limit|%s|no-response' % follow,
+                                  'a request following one with Maximum Response Size %d got no response (%s)'
+                                  % (small, '%s: %s' % (type(e2).__name__, e2) if e2 else '%d responses' % len(s2)), None)
+                elif eref is None and sref and rig.Result(s2[1]).norm() != rig.Result(sref[0]).norm():
+                    ctx.violation('sticky-limit|%s|differs' % follow,
+                                  'after a request with Maximum Response Size %d the next request on the connection is answered %s, '
+                                  'on a connection of its own %s' % (small, rig.Result(s2[1]).brief(), rig.Result(sref[0]).brief()), None)
             # maximum response size sweep
             for _ in range(12):
                 version = rng.choice(rig.VERSIONS)
